@@ -805,10 +805,47 @@ def abslist_for(eng, st, lst, stmt):
                             if written or assigned:
                                 havoc(s4)
                             _assume_fallthrough(eng, s4, lst, stmt, musts)
+                            if new_eff:
+                                # the body has logged effects: an element that is certainly in the list was visited, so
+                                # its own iteration (from an arbitrary state of the write set) is in the log as well
+                                res.extend(_visit_certain_members(eng, s4, stmt, musts, v, havoc if (written or assigned) else None))
+                                continue
                         res.append((s4, ("next", None)))
                     else:
                         res.append((s4, o4))
     return res
+
+
+def _visit_certain_members(eng, st, stmt, musts, cur, havoc):
+    """after a complete run of an abstract loop: one explicit iteration for every element whose membership is certain
+    (other than the element the generic iteration ran on).  Returns loop outcomes."""
+    states = [st]
+    out = []
+    for g, m in musts:
+        if isinstance(m, R) and isinstance(cur, R) and m.addr == cur.addr:
+            continue
+        nstates = []
+        for s in states:
+            if z3.is_false(g) or eng.feasible(s, znot(g)):
+                nstates.append(s)       # membership not certain here
+                continue
+            for s3, o3 in eng.assign_target(s, stmt.target, m):
+                if o3[0] != "next":
+                    out.append((s3, o3))
+                    continue
+                for s4, o4 in eng.exec_block(s3, stmt.body):
+                    if o4[0] in ("next", "continue"):
+                        if havoc is not None:
+                            havoc(s4)
+                        nstates.append(s4)
+                    elif o4[0] == "break":
+                        out.append((s4, ("next", None)))
+                    else:
+                        out.append((s4, o4))
+        states = nstates
+    for s in states:
+        out.append((s, ("next", None)))
+    return out
 
 
 def _target_names(t):
